@@ -693,6 +693,25 @@ static void check_poly(vf_rng *r, unsigned idx)
         double pe = a_poly_eval_(a, a + n, x), pv = a_poly_evar_(a, a + n, x);
         double xe = vfx_poly_eval(a, (a_size)n, x), xv = vfx_poly_evar(a, (a_size)n, x);
         double re, rv;
+        /* the same calls with the length as a literal at the call site: the header's inline copies see a compile-time constant there
+         * (that is how applications usually call them: a literal, A_LEN(c)), and a body that tests __builtin_constant_p(n) takes
+         * another path than for the run-time n above (seeded change C15-J: an unrolled "constant length" path for 3 <= n <= 8 in
+         * a_poly_evar with a mirrored index) */
+        {
+            double le = 0, lv = 0, *b = dup_exact(a, n);
+            switch (n)
+            {
+#define LIT(N) case N: le = a_poly_eval(a, N, x); lv = a_poly_evar(a, N, x); a_poly_swap(b, N); break;
+                LIT(1) LIT(2) LIT(3) LIT(4) LIT(5) LIT(6) LIT(7) LIT(8) LIT(9) LIT(10) LIT(11) LIT(12) LIT(13)
+#undef LIT
+            default: le = ye; lv = yv; a_poly_swap(b, (a_size)n); break;
+            }
+            VF_COUNT("poly/literal-length-call-site");
+            if (memcmp(&le, &ye, sizeof(double)) != 0) { vf_viol("poly_eval/literal-length-call-site-differs", "%s: a_poly_eval(a, <literal %d>, x)=%a, with a run-time length %a", txt, n, le, ye); }
+            if (memcmp(&lv, &yv, sizeof(double)) != 0) { vf_viol("poly_evar/literal-length-call-site-differs", "%s: a_poly_evar(a, <literal %d>, x)=%a, with a run-time length %a", txt, n, lv, yv); }
+            if (!is_reversed(b, a, n)) { vf_viol("poly_swap/literal-length-call-site-not-reversed", "%s: a_poly_swap(a, <literal %d>) did not reverse the coefficients", txt, n); }
+            free(b);
+        }
         for (int i = 0; i < n; ++i) { qa[i] = a[i]; qr[i] = a[n - 1 - i]; }
         ref_e = powsum_q(qa, n, x, &mag_e); /* sum a_i x^i */
         ref_v = powsum_q(qr, n, x, &mag_v); /* sum a_i x^(n-1-i) */
